@@ -30,41 +30,32 @@ Proof.
 Qed.
 
 (* ---------------- the constructor, read backwards: acceptance implies equal spans and maximal lags / leads ---------------- *)
-Lemma ctor_loop_ret_inv base : forall rest lg ld x,
-  ctor_loop base rest lg ld = Ret x -> forall ic, In ic rest -> span_ne (si_span (snd ic)) base = Ret false.
-Proof.
-  induction rest as [|[i c] r IH]; intros lg ld x H ic Hi; [destruct Hi|]. cbn [ctor_loop] in H.
-  destruct (span_ne (si_span c) base) as [[|]|e] eqn:E; try discriminate.
-  destruct Hi as [<-|Hi]; [exact E|]. eapply IH; eauto.
-Qed.
-
 Theorem ctor_accept_inv id0 b rest sp lg ld :
   linker_ctor_M ((id0, b) :: rest) None = Ret (sp, lg, ld) ->
   sp = si_span b /\
-  (forall ic, In ic rest -> span_ne (si_span (snd ic)) (si_span b) = Ret false) /\
+  (forall ic, In ic rest -> span_elems (si_span (snd ic)) = span_elems (si_span b)) /\
   (forall ic, In ic ((id0, b) :: rest) -> si_LAGS (snd ic) <= lg) /\
   (exists ic, In ic ((id0, b) :: rest) /\ si_LAGS (snd ic) = lg) /\
   (forall ic, In ic ((id0, b) :: rest) -> si_LEADS (snd ic) <= ld) /\
   (exists ic, In ic ((id0, b) :: rest) /\ si_LEADS (snd ic) = ld).
 Proof.
   intros H.
-  assert (Hne : forall ic, In ic rest -> span_ne (si_span (snd ic)) (si_span b) = Ret false).
-  { cbn [linker_ctor_M] in H. destruct (ctor_loop (si_span b) rest (si_LAGS b) (si_LEADS b)) as [x|e] eqn:E; [|discriminate].
-    eapply ctor_loop_ret_inv; eauto. }
+  assert (Hne : forall ic, In ic rest -> span_elems (si_span (snd ic)) = span_elems (si_span b)).
+  { apply (ctor_accepts_iff id0 b rest). eauto. }
   destruct (lags_leads_are_maxima id0 b rest Hne) as (L0 & D0 & E & A1 & A2 & A3 & A4).
   rewrite E in H. inversion H; subst. repeat split; assumption.
 Qed.
 
-(* A linker over list / range spans exists only if every submodel has exactly the first submodel's period labels *)
+(* A linker exists only if every submodel has exactly the first submodel's period labels, position by position — and,
+   unless the spans are empty, elements of the same class (integers / Periods / Timestamps) — whatever the containers *)
 Theorem ctor_accepts_only_equal_spans id0 b rest sp lg ld :
   linker_ctor_M ((id0, b) :: rest) None = Ret (sp, lg, ld) ->
-  forall ic, In ic rest -> sp_kind (si_span (snd ic)) <> SArray -> sp_kind (si_span b) <> SArray ->
-  sp_labels (si_span (snd ic)) = sp_labels (si_span b).
+  forall ic, In ic rest ->
+  sp_labels (si_span (snd ic)) = sp_labels (si_span b) /\
+  (sp_labels (si_span (snd ic)) = [] \/ elt_class (sp_kind (si_span (snd ic))) = elt_class (sp_kind (si_span b))).
 Proof.
-  intros H ic Hi Hk Hkb. destruct (ctor_accept_inv _ _ _ _ _ _ H) as (_ & Hne & _).
-  specialize (Hne ic Hi). unfold span_ne in Hne.
-  destruct (sp_kind (si_span (snd ic))) eqn:Ka, (sp_kind (si_span b)) eqn:Kb; try congruence; try discriminate;
-    inversion Hne as [E]; apply negb_false_iff in E; apply zlist_eqb_eq in E; exact E.
+  intros H ic Hi. destruct (ctor_accept_inv _ _ _ _ _ _ H) as (_ & Hne & _).
+  apply span_elems_eq. apply Hne. exact Hi.
 Qed.
 
 (* ======================= solve(start=, end=) ======================= *)
@@ -196,3 +187,107 @@ Proof.
   inversion Hc; subst. destruct (ctor_accept_inv _ _ _ _ _ _ E) as (_ & _ & A1 & _ & A3 & _).
   specialize (A1 ic Hi). specialize (A3 ic Hi). destruct (Hnn ic Hi) as [N1 N2]. lia.
 Qed.
+
+(* ======================= solve(): failure containment; errors= is only handed down ======================= *)
+Section LContain.
+  Variable num : Type.
+  Variables (sub : num -> num -> num) (absf : num -> num) (ltb : num -> num -> bool) (zero : num).
+  Variable sev : sid -> hook num.
+  Variables (pre ebefore eafter post : lhook num).
+
+  Notation lstate := (lstate num).
+  Notation solve_t := (linker_solve_t_M num sub absf ltb zero sev pre ebefore eafter post).
+  Notation solve := (linker_solve_M num sub absf ltb zero sev pre ebefore eafter post).
+
+  (* If the periods ps1 solve (each returning its flag) and the next period t raises — NonConvergenceError under
+     failures='raise', KeyError, IndexError, or whatever a hook / submodel raised — then solve() surfaces that exception
+     unchanged, the periods after t are never attempted, and the state is the one the periods ps1 left, changed only by
+     the aborted call at t: every status / iteration entry of the linker and of EVERY submodel at a position other than
+     t's — in particular the stamps of the earlier periods — is exactly what solving ps1 alone leaves. *)
+  Theorem linker_solve_failure_containment sel o t ps2 : forall ps1 s s1 bs s2 e,
+    min_iter o <= max_iter o ->
+    solve sel o ps1 s = (s1, inr bs) ->
+    solve_t sel o t s1 = (s2, LRaise e) ->
+    solve sel o (ps1 ++ t :: ps2) s = (s2, inl e) /\ sfr num t s1 s2.
+  Proof.
+    induction ps1 as [|a r IH]; intros s s1 bs s2 e Hmm H1 H2.
+    - rewrite (linker_solve_nil num sub absf ltb zero sev pre ebefore eafter post sel o s Hmm) in H1. inversion H1; subst.
+      cbn [app]. rewrite (linker_solve_cons num sub absf ltb zero sev pre ebefore eafter post sel o t ps2 s1 Hmm), H2.
+      split; [reflexivity|].
+      pose proof (solve_t_other_periods_untouched num sub absf ltb zero sev pre ebefore eafter post sel o t s1) as F.
+      rewrite H2 in F. exact F.
+    - rewrite (linker_solve_cons num sub absf ltb zero sev pre ebefore eafter post sel o a r s Hmm) in H1.
+      cbn [app]. rewrite (linker_solve_cons num sub absf ltb zero sev pre ebefore eafter post sel o a (r ++ t :: ps2) s Hmm).
+      destruct (solve_t sel o a s) as [s' [b|e']]; [|discriminate].
+      destruct (solve sel o r s') as [s'' [e'|bs']] eqn:Er; [discriminate|]. inversion H1; subst.
+      destruct (IH s' s1 bs' s2 e Hmm Er H2) as [E F]. rewrite E. split; [reflexivity|exact F].
+  Qed.
+
+  (* ---- errors= / catch_first_error: the linker itself never looks at them ---- *)
+  Definition set_errors (o : opts num) (em : errmode) (cf : bool) : opts num :=
+    mkOpts (min_iter o) (max_iter o) (tol o) (offset o) (fail_raise o) em cf.
+End LContain.
+
+Section LErrors.
+  Variable num : Type.
+  Variables (sub : num -> num -> num) (absf : num -> num) (ltb : num -> num -> bool) (zero : num).
+  Variable sev : sid -> hook num.
+  Variables (pre ebefore eafter post : lhook num).
+  (* the submodels' _evaluate and the four hooks do not react to errors= / catch_first_error *)
+  Hypothesis Hsev : forall id t em cf em' cf' k v, sev id t em cf k v = sev id t em' cf' k v.
+  Hypothesis Hpre : forall t ids em cf em' cf' k jv, pre t ids em cf k jv = pre t ids em' cf' k jv.
+  Hypothesis Hbef : forall t ids em cf em' cf' k jv, ebefore t ids em cf k jv = ebefore t ids em' cf' k jv.
+  Hypothesis Haft : forall t ids em cf em' cf' k jv, eafter t ids em cf k jv = eafter t ids em' cf' k jv.
+  Hypothesis Hpost : forall t ids em cf em' cf' k jv, post t ids em cf k jv = post t ids em' cf' k jv.
+
+  Notation run_hook := (run_hook num).
+  Notation eval_subs := (eval_subs num sev).
+  Notation iter_step := (iter_step num sev ebefore eafter).
+  Notation lloop := (lloop num sub absf ltb zero sev ebefore eafter post).
+  Notation solve_t := (linker_solve_t_M num sub absf ltb zero sev pre ebefore eafter post).
+  Notation set_errors := (set_errors num).
+
+  Lemma run_hook_set_errors (h : lhook num) ids o em cf t k e s :
+    (forall t ids em cf em' cf' k jv, h t ids em cf k jv = h t ids em' cf' k jv) ->
+    run_hook h ids (set_errors o em cf) t k e s = run_hook h ids o t k e s.
+  Proof. intros Hh. unfold Linker.run_hook. cbn [errors catch_first set_errors]. rewrite (Hh t ids em cf (errors o) (catch_first o)). reflexivity. Qed.
+
+  Lemma eval_subs_set_errors o em cf t k : forall ids s, eval_subs (set_errors o em cf) t k ids s = eval_subs o t k ids s.
+  Proof.
+    induction ids as [|a r IH]; intros s; cbn [Linker.eval_subs]; [reflexivity|].
+    destruct (find_sub num a (l_subs s)) as [c|]; [|reflexivity].
+    cbn [errors catch_first set_errors]. rewrite (Hsev a t em cf (errors o) (catch_first o)).
+    destruct (sev a t (errors o) (catch_first o) k (vals_of (c_st c))) as [v' [e|]]; [reflexivity|].
+    destruct (bump_iter num (with_cvals num c v') t); [apply IH|reflexivity].
+  Qed.
+
+  Lemma iter_step_set_errors ids o em cf t k s : iter_step ids (set_errors o em cf) t k s = iter_step ids o t k s.
+  Proof.
+    unfold Linker.iter_step. rewrite (run_hook_set_errors ebefore) by exact Hbef.
+    destruct (run_hook ebefore ids o t k (LBefore t k) s) as [s1 [e|]]; [reflexivity|].
+    rewrite eval_subs_set_errors. destruct (eval_subs o t k ids s1) as [s2 [e|]]; [reflexivity|].
+    apply run_hook_set_errors. exact Haft.
+  Qed.
+
+  Lemma lloop_set_errors ids o em cf t : forall n k s cur, lloop ids (set_errors o em cf) t n k s cur = lloop ids o t n k s cur.
+  Proof.
+    induction n as [|n IH]; intros k s cur; cbn [Linker.lloop]; [reflexivity|].
+    rewrite iter_step_set_errors. destruct (iter_step ids o t k s) as [s1 [e|]]; [reflexivity|].
+    destruct (get_check_values num zero ids t s1) as [cur'|e]; [|reflexivity].
+    change (min_iter (set_errors o em cf)) with (min_iter o). change (tol (set_errors o em cf)) with (tol o).
+    rewrite (run_hook_set_errors post) by exact Hpost. rewrite !IH. reflexivity.
+  Qed.
+
+  (* errors= and catch_first_error reach a solve_t call ONLY as arguments handed down to the hooks and to each selected
+     submodel's _evaluate: if those do not react to them, every policy ('raise', 'skip', 'ignore', 'replace', anything)
+     and either flag give the same run — same values, same statuses ('.' / 'F' only), same counts, same outcome.
+     Non-finite check values are simply compared: there is no 'E' / 'S' stamping and no replacement by the linker. *)
+  Theorem linker_errors_only_handed_down sel o em cf t s : solve_t sel (set_errors o em cf) t s = solve_t sel o t s.
+  Proof.
+    unfold Linker.linker_solve_t_M. destruct (get_check_values num zero (sel_ids num sel s) t s) as [cur|e]; [|reflexivity].
+    destruct (zero_iters num (sel_ids num sel s) t (l_subs s)) as [subs1 [e|]]; [reflexivity|].
+    rewrite (run_hook_set_errors pre) by exact Hpre. destruct (run_hook pre _ o t 0%nat (LPre t) _) as [s1 [e|]]; [reflexivity|].
+    change (max_iter (set_errors o em cf)) with (max_iter o). rewrite lloop_set_errors.
+    destruct (lloop _ o t _ 1%nat s1 cur) as [s2 st k|s2 e]; reflexivity.
+  Qed.
+End LErrors.
